@@ -22,7 +22,7 @@
    Subtrees of integer literals only are folded on ints, as CPython computes them (fold_ints: -0 is 0).
    Everything outside the subset (keywords, verbatim code, string indexes, comparison operators, other functions,
    a series that is not declared, a series whose attribute name CPython mangles) yields None: fail-closed, never guessed. *)
-From Coq Require Import String Ascii List Bool Arith ZArith.
+From Coq Require Import String Ascii List Bool Arith ZArith DecimalString.
 Import ListNotations.
 Require Import Generated PyBase PyStr Lex Format Symbols Split Merge ParseEq ParseModel Eval.
 Open Scope string_scope.
@@ -589,19 +589,31 @@ Fixpoint assoc_stmt (n : string) (defs : list (string * sstmt)) : option sstmt :
    ( self._NAME[t] / [t+K] / [t-K], decimal literals, + - * / ** ( ) , np.exp np.log max min abs, comparisons, if / else /
    and / or / not ) is read into the same tokens as a script statement; anything else — other names, a newline (a fenced
    block), an index with blanks — is CBad: outside the subset, fail-closed. ---- *)
-Definition code_index (s : string) : option (Z * string) :=          (* [t]  [t+K]  [t-K] *)
+(* the text Term.__str__ appends for an integer index: [t] / [t+k] / [t-k] *)
+Definition offset_text (z : Z) : string :=
+  if (0 <? z)%Z then "[t+" ++ string_of_Z z ++ "]"
+  else if (z =? 0)%Z then "[t]"
+  else "[t" ++ string_of_Z z ++ "]".
+(* the index of a series access in the code: exactly the canonical spelling [t] / [t+K] / [t-K] that Term.code writes
+   (no blanks, no leading zeros, no +0): the text up to `]` is read as a decimal integer and must render back to itself *)
+Definition code_index (s : string) : option (Z * string) :=
   match prefix_rest "[t" s with
-  | Some (String c r) =>
-    if Ascii.eqb c "]" then Some (0%Z, r)
-    else if Ascii.eqb c "+" || Ascii.eqb c "-" then
-      let '(ds, r2) := span_while is_digit r in
-      match ds, r2 with
-      | String _ _, String d r3 =>
-        if Ascii.eqb d "]" then Some (if Ascii.eqb c "-" then (- digits_Z 0 ds)%Z else digits_Z 0 ds, r3) else None
-      | _, _ => None
+  | Some r =>
+    let '(body, r2) := span_while (fun c => negb (Ascii.eqb c "]")) r in
+    match r2 with
+    | String _ r3 =>
+      match body with
+      | "" => Some (0%Z, r3)
+      | String b body' =>
+        match NilZero.int_of_string (if Ascii.eqb b "+" then body' else body) with
+        | Some d => let k := Z.of_int d in
+                    if String.eqb (offset_text k) ("[t" ++ body ++ "]") then Some (k, r3) else None
+        | None => None
+        end
       end
-    else None
-  | _ => None
+    | "" => None
+    end
+  | None => None
   end.
 Definition code_word (w : string) : ctok :=
   if String.eqb w "np.exp" || String.eqb w "np.log" || String.eqb w "max" || String.eqb w "min" || String.eqb w "abs" then CFun w
@@ -615,10 +627,12 @@ Fixpoint lex_code (fuel : nat) (s : string) : list ctok :=
     match s with
     | "" => []
     | String c r =>
-      if Ascii.eqb c nl then [CBad]
-      else if is_space c then lex_code f r
-      else if is_digit c || Ascii.eqb c "." then
-        let '(num, rest) := span_while (fun d => is_digit d || Ascii.eqb d ".") s in CNum num :: lex_code f rest
+      if is_digit c || Ascii.eqb c "." then
+        let '(num, rest) := span_while (fun d => is_digit d || Ascii.eqb d ".") s in
+        match rest with
+        | String d _ => if is_alpha_ d then [CBad] else CNum num :: lex_code f rest     (* `2self._X[t]`, `1e5`, `2j`: no *)
+        | "" => [CNum num]
+        end
       else if Ascii.eqb c "*" then
         match r with
         | String d r2 => if Ascii.eqb d "*" then CPow :: lex_code f r2 else CStar :: lex_code f r
@@ -629,6 +643,8 @@ Fixpoint lex_code (fuel : nat) (s : string) : list ctok :=
         | String d r2 => if Ascii.eqb d "=" then op2 c :: lex_code f r2 else op1 c :: lex_code f r
         | "" => [op1 c]
         end
+      else if Ascii.eqb c nl then [CBad]
+      else if is_space c then lex_code f r
       else if is_alpha_ c then
         match prefix_rest "self._" s with
         | Some r1 =>
@@ -672,6 +688,52 @@ Definition program_of_script (script : string) : option (list string * sprogram)
   | _, _ => None
   end.
 
+(* ---- the tie between the generated CODE text and the statement the script denotes, decided statement by statement:
+   reading the code text back (lex_code: the code's own spelling self._NAME[t+K], np.exp …) must give the very statement
+   read from the script's tokens.  A script is accepted (program_of_script_checked) only when every one of its statements
+   passes; so whatever the token-wise rendering does to a statement (two tokens fusing into one identifier, an index or a
+   name changing meaning in the code's spelling, …) either leaves the statement unchanged or puts the script outside the
+   subset — for every statement, not only for the defects already known (`fuses`, `mangled`). ---- *)
+Definition binop_eqb (a b : binop) : bool :=
+  match a, b with OAdd, OAdd | OSub, OSub | OMul, OMul | ODiv, ODiv | OPow, OPow => true | _, _ => false end.
+Definition cmpop_eqb (a b : cmpop) : bool :=
+  match a, b with CLt, CLt | CLe, CLe | CEq, CEq | CNe, CNe | CGt, CGt | CGe, CGe => true | _, _ => false end.
+Fixpoint sexpr_eqb (a b : sexpr) : bool :=
+  match a, b with
+  | ENum x, ENum y => String.eqb x y
+  | ERead x k, ERead y j => Nat.eqb x y && Z.eqb k j
+  | ENeg a1, ENeg b1 => sexpr_eqb a1 b1
+  | EAbs a1, EAbs b1 => sexpr_eqb a1 b1
+  | EBin o a1 a2, EBin o' b1 b2 => binop_eqb o o' && sexpr_eqb a1 b1 && sexpr_eqb a2 b2
+  | EMax a1 a2, EMax b1 b2 => sexpr_eqb a1 b1 && sexpr_eqb a2 b2
+  | EMin a1 a2, EMin b1 b2 => sexpr_eqb a1 b1 && sexpr_eqb a2 b2
+  | EIf o l r a1 a2, EIf o' l' r' b1 b2 =>
+    cmpop_eqb o o' && sexpr_eqb l l' && sexpr_eqb r r' && sexpr_eqb a1 b1 && sexpr_eqb a2 b2
+  | ECall1 g a1, ECall1 g' b1 => Nat.eqb g g' && sexpr_eqb a1 b1
+  | ECall2 g a1 a2, ECall2 g' b1 b2 => Nat.eqb g g' && sexpr_eqb a1 b1 && sexpr_eqb a2 b2
+  | _, _ => false
+  end.
+Definition named_stmt_eqb (a b : string * sstmt) : bool :=
+  let '(y, SAssign i k e) := a in let '(y', SAssign i' k' e') := b in
+  String.eqb y y' && Nat.eqb i i' && Z.eqb k k' && sexpr_eqb e e'.
+(* an accepted statement must be read back from its code text *)
+Definition code_agrees (row : string -> option nat) (eq : string) : bool :=
+  match stmt_of_equation row eq with
+  | None => true
+  | Some s =>
+    match code_text eq with
+    | Some c => match stmt_of_code row c with Some s' => named_stmt_eqb s' s | None => false end
+    | None => false
+    end
+  end.
+Definition program_agrees (syms : list symbol) (stmts : list string) : bool :=
+  forallb (code_agrees (row_of (names_of syms))) (filter (fun st => negb (head_is "`" st && last_is "`" st)) stmts).
+Definition program_of_script_checked (script : string) : option (list string * sprogram) :=
+  match parse_model_nocheck script, split_M script with
+  | POk syms, (stmts, None) => if program_agrees syms stmts then program_of_symbols syms stmts else None
+  | _, _ => None
+  end.
+
 (* ---- literals: text -> number ---- *)
 Section Literals.
   Variables (A B : Type) (f : A -> B).
@@ -705,11 +767,6 @@ Definition match_read (row : string -> option nat) (m : tmatch) : list (option (
     end
   else [].
 
-(* the text Term.__str__ appends for an integer index: [t] / [t+k] / [t-k] *)
-Definition offset_text (z : Z) : string :=
-  if (0 <? z)%Z then "[t+" ++ string_of_Z z ++ "]"
-  else if (z =? 0)%Z then "[t]"
-  else "[t" ++ string_of_Z z ++ "]".
 
 (* ---- what the script says, independently of trees: the series terms of a statement, in textual order ---- *)
 Fixpoint tok_reads (row : string -> option nat) (ts : list ctok) : list (option (nat * Z)) :=
@@ -718,3 +775,38 @@ Fixpoint tok_reads (row : string -> option nat) (ts : list ctok) : list (option 
   | CRead x k :: r => (match row x with Some i => Some (i, k) | None => None end) :: tok_reads row r
   | _ :: r => tok_reads row r
   end.
+
+(* ---- when does the token-wise rendering preserve the token sequence?  `tight p l`: a decidable, LOCAL condition on the
+   (normalised) items of a statement — p says how the code rendered so far ends (PDig: in a digit or dot; PWord: in a
+   function name or keyword; PNone: anything else):
+     - a character outside the matches is no letter / underscore and no newline, and directly after a function name or
+       keyword it does not continue a word (no letter, digit, underscore, dot);
+     - a match is a series term with an integer index whose code is self._NAME[t+K], or one of the functions / keywords of
+       the subset whose code is that word, and does not directly follow a digit, a dot, a function name or a keyword
+       (this is where `not{X}` -> `notself._X[t]` and `2{p}` -> `2self._p[t]` are excluded).
+   CodeGenFacts15.lex_tie: for such item lists the code text is lexed (lex_code) into EXACTLY the tokens of the script. ---- *)
+Inductive pclass : Type := PNone | PDig | PWord.
+Definition digdot (c : ascii) : bool := is_digit c || Ascii.eqb c ".".
+Fixpoint str_all (p : ascii -> bool) (s : string) : bool :=
+  match s with "" => true | String c r => p c && str_all p r end.
+Definition kw_text (x : xtok) : option string :=
+  match x with XIf => Some "if" | XElse => Some "else" | XAnd => Some "and" | XOr => Some "or" | XNot => Some "not" | XCmp _ => None end.
+Definition known_fun (w : string) : bool :=
+  String.eqb w "np.exp" || String.eqb w "np.log" || String.eqb w "max" || String.eqb w "min" || String.eqb w "abs".
+Definition tok_class (m : tmatch) : option pclass :=
+  match tok_of_match m, code_of_match m with
+  | CRead name k, Some c =>
+    if is_series (mkind m) && str_all is_idc name && String.eqb c ("self._" ++ name ++ offset_text k) then Some PNone else None
+  | CFun w, Some c => if known_fun w && String.eqb c w then Some PWord else None
+  | CX x, Some c => match kw_text x with Some w => if String.eqb c w then Some PWord else None | None => None end
+  | _, _ => None
+  end.
+Fixpoint tight (p : pclass) (l : list item) : bool :=
+  match l with
+  | [] => true
+  | Chr c :: r =>
+    negb (is_alpha_ c) && negb (Ascii.eqb c nl) && (match p with PWord => negb (is_fnc c) | _ => true end) &&
+    tight (if digdot c then PDig else PNone) r
+  | Tok _ m :: r => match p, tok_class m with PNone, Some q => tight q r | _, _ => false end
+  end.
+Definition tight_statement (eq : string) : bool := tight PNone (norm_items (scan_items eq)).
